@@ -12,6 +12,8 @@ THEOREMS = [
     'Hd.history_refines_ci_map', 'Hd.absMap_applyOp', 'Hd.wf_run', 'Hd.wf_applyOp',
     'Hd.emit_each_plain_header_once', 'Hd.one_line_per_cookie_and_per_raw_append', 'Hd.emitted_after_history',
     'Hd.jar_untouched_by_plain', 'Hd.plain_untouched_by_cookie', 'Hd.setCookie_fresh_last', 'Hd.unsetCookie_line',
+    # strengthening round 4: the mapping `resp.headers` returns
+    'Hd.headers_copy_after_history',
     # round 2: what a cookie line looks like (CookieOut.lean: set_cookie / unset_cookie / Morsel.OutputString / _quote / strftime / _getdate)
     'Cw.setCookie_spec', 'Cw.runSteps_spec', 'Cw.setCookie_accepts', 'Cw.setCookie_rejects', 'Cw.setCookieLine_ok_iff',
     'Cw.splitSS_joinSS', 'Cw.attrPieces_eq', 'Cw.morsel_keys_sublist', 'Cw.morsel_clean', 'Cw.parse_output', 'Cw.morselAttrs_final',
@@ -35,6 +37,7 @@ THEOREMS = [
     'Rp.content_disposition_ascii', 'Rp.dtype_ok', 'Rp.formatContentDisposition_isSome',
     'Rp.secureFilename_spec', 'Rp.secureCore_chars', 'Rp.secureCore_head', 'Rp.secureCore_length', 'Rp.secureCore_keeps', 'Rp.secureCore_idem',
     'Rp.etag_quoting_idempotent', 'Rp.formatEtag_spec', 'Rp.formatEtag_none_iff', 'Rp.header_value_list_join', 'Rp.split2_join', 'Rp.split1_join',
+    'Rp.header_value_items_join', 'Rp.strMembers_map_str', 'Rp.strMembers_some', 'Rp.assign_items',
     'Rp.content_range_format_exact', 'Rp.content_range_reads_back', 'Rp.content_range_bytes_reads_back', 'Rp.digitsVal_natDec', 'Rp.natDec_digits',
     'Rp.property_set_get_roundtrip', 'Rp.property_transform_raises', 'Rp.property_none_deletes', 'Rp.property_del', 'Rp.propAssign_eq_applyOp',
     'Rp.property_get_header', 'Rp.assign_get', 'Rp.assign_none', 'Rp.key_ne_cookie',
@@ -54,6 +57,9 @@ STATEMENTS = {
     'Hd.emit_each_plain_header_once': 'in the list handed to the server the entries that are not Set-Cookie lines are exactly the dict items, and their (lower-cased) names are pairwise distinct',
     'Hd.one_line_per_cookie_and_per_raw_append': 'the Set-Cookie entries of the emitted list are the raw appended lines followed by one line per cookie of the jar; their number is #raw + #cookies',
     'Hd.emitted_after_history': 'both emission facts hold for the response reached by any history from the fresh response',
+    'Hd.headers_copy_after_history': 'after EVERY history from a fresh response the mapping resp.headers returns has pairwise distinct normalised names, no Set-Cookie key, and for every spelling b of a plain header holds under b.lower() exactly what the case-insensitive map specification holds - which is what get_header(b) returns',
+    'Rp.header_value_items_join': 'an iterable handed to cache_control / vary stores exactly what the list of the items it yields gives: the str members joined by ", "; the join raises (TypeError; nothing stored, by property_transform_raises) iff some member is not a str',
+    'Rp.assign_items': 'resp.vary = <iterable> / resp.cache_control = <iterable> either writes that join under the property\'s header name or raises and leaves the store alone',
     'Hd.jar_untouched_by_plain': 'no plain-header call and no typed property changes the cookie jar',
     'Hd.setCookie_fresh_last': 'set_cookie drops whatever the jar held under that name and emits the new line last (fix ae30cad)',
     'Cw.setCookie_spec': 'set_cookie, completely: which of its checks raises (name not ASCII / contains a colon / value not ASCII / reserved or illegal key / date overflow / int(max_age) / same_site) in which order, what each failure leaves in the jar, and the morsel of a successful call as a function of the arguments and secure_cookies_by_default',
@@ -128,7 +134,10 @@ TRUSTED = [
     'header values are str in the model and String (same code points) in the Hd store; dt_to_http (expires, last_modified) is not in Rp (Cw.imfDate models the same strftime format for cookies)',
 ]
 ASSUMPTIONS = [
-    'header names are ASCII tokens in arbitrary letter case; values are str over printable ASCII / latin-1 (raw Set-Cookie values ASCII); list-valued properties (cache_control, vary) get lists/tuples, etag is non-empty',
+    'header names are ASCII tokens in arbitrary letter case; values are str over printable ASCII / latin-1 (raw Set-Cookie values printable ASCII, no CR / LF); list-valued properties (cache_control, vary) get ANY iterable '
+    '(an iterable that yields a non-str member must behave like the list of its members: TypeError, nothing stored; a single str is an iterable of its characters - the documentation asks for a one-element list or tuple for a single value), etag is non-empty',
+    'set_headers gets a mapping with items() or an iterable of two-member iterables with str names; an item of another shape (wrong arity, a non-iterable) is outside the statement (falcon lets the unpacking error through: ValueError or TypeError)',
+    'a returned object is judged as a snapshot by ==: resp.headers is a new dict on every read (documented); the emitted lists are new lists holding immutable tuples. Identity of the str values is not judged (str is immutable)',
     'a value handed to location / content_location / append_link (target, anchor, title_star text) that already is a well-formed percent-encoded ASCII URI (only URI characters and valid %XX escapes) is passed through unchanged, as documented for encode_check_escaped; the round-trip oracle then requires emitted == original instead of decode(emitted) == original',
     'download filenames contain no control characters; Link titles are ASCII without double quote / backslash (non-ASCII titles go through title_star, as documented)',
     'cookie names are RFC 6265 tokens that are not attribute names reserved by http.cookies; every other name (incl. one containing a colon, fix 9cb24a9) must be rejected with KeyError',
@@ -155,8 +164,27 @@ RULE = ('histories of 1..12 operations (set / append / delete / get / set_header
         'URI cases: unicode / control-character targets, anchors, title* texts, extension relation types (blank, tab, NBSP, EM SPACE separated) and filenames (incl. leading dots, compatibility characters) through location, '
         'content_location, append_link (1..3 calls; all keyword arguments incl. empty lists, rejected crossorigin values), downloadable_as, viewable_as, plus etag / cache_control / vary / content_range / content_length / content_type / '
         'retry_after / accept_ranges with assignment of None and del; the exact emitted value (from _wsgi_headers() / _asgi_headers()) and every exception are compared with the Rp model, secure_filename and _is_ascii_encodable directly. '
+        'SECOND-ORDER READS: the histories have a `snapshot` operation - resp.headers, _wsgi_headers() or _asgi_headers() is read, its type is checked (dict of str -> str with lower-case names and no Set-Cookie; '
+        'list of (str, str) / (bytes, bytes) tuples; get_header and the typed properties return str), two reads of resp.headers must be distinct objects, and in 65% of the reads the owner edits the object it was handed '
+        '(1..3 of set-new / overwrite / del / pop / popitem / clear / update / setdefault on the dict - names lower-case and not, present and absent, Set-Cookie spellings; append / pop / clear / item assignment / '
+        'reverse / extend / insert / del on the lists); the history continues, the model never sees the edit, and after EVERY later operation each object returned earlier must still hold what its owner left in it; the '
+        'model driver answers a `headers` line (the mapping in dict order) for every such read. '
+        'ARGUMENT OBJECTS: every setter that takes an iterable gets it as one of 18 kinds of object - list, tuple, set, frozenset, dict, dict keys / values views, generator, map, filter, reversed, iter, zip-derived generator, '
+        'itertools.chain, deque, a one-shot iterator object, a re-iterable without __len__, a __getitem__-only sequence - (cache_control / vary in the histories, the Rp cases and the full apps; 0..4 members incl. empty ones and, '
+        'in the Rp cases, members that are not str: int / None / bytes / float -> TypeError like a list, an earlier value stays); set_headers gets 16 kinds (list, tuple, dict, OrderedDict, mappingproxy, dict items view, generator, iter, map, zip, '
+        'an object with only items() returning a list or a generator, pairs as lists / as iterators, deque, re-iterable); hreflang / link_extension of append_link as generators, iterators, views ...; content_range as a list; in 70% of the calls '
+        'with a mutable argument the caller edits its object afterwards (append / clear / reverse / overwrite) and the header must not change. '
+        'RAW COOKIES: 60% of the raw append_header(Set-Cookie) values come from a grammar of relayed upstream cookies - name=value; attributes with values of the classes token, k=v,k=v lists (a comma followed by name=, with and without blanks), '
+        'JSON, quoted strings holding `=` `;` `,`, number lists, base64 padding, dates, two cookies folded into one value, blanks, runs of `=`; attributes Path / Domain (also with commas), Expires in the RFC 1123, RFC 850 and asctime forms, Max-Age, flags, '
+        'extension attributes, in any case, separated by `; ` `;` ` ; `; plus 20 whole-line corner texts (empty, `=`, `,a=b`, leading / trailing blank ...): one line per append, identical text, append order, on both stacks, on bare responses and through '
+        'full WSGI / ASGI apps; the same texts are given to set_header / delete_header / get_header / set_headers under a Set-Cookie spelling (must raise) and to plain headers (left alone). '
+        'FULL-APP OBJECTS: scripts of 1..7 operations (set / append / delete / raw cookie / set_cookie / vary and cache_control from any kind of iterable / set_headers from any kind of argument / a read of resp.headers that is kept and edited) are '
+        'played by a responder on a WSGI and an ASGI app behind a middleware whose process_response reads resp.headers 0..2 times and edits what it got; the header list received by start_response / ASGI send is compared with the map of the '
+        'responder\'s own operations. '
         'non-trivial = at least one mutation succeeded; distinct = distinct operation list')
-PARTIAL = ('modelled and proved: the three header stores (Hd), the text of every cookie line (Cw: set_cookie / unset_cookie / Morsel.OutputString / _quote / strftime / astimezone / _getdate, '
+PARTIAL = ('Aliasing (object identity) has no counterpart in the pure Lean model: that a returned mapping / list is a snapshot and that an argument object is not kept is established by the harness on the real objects '
+           '(the model side of it: an edit of a returned object is no operation of the history; a one-shot iterable is the list of its items - Hd.headers_copy_after_history, Rp.header_value_items_join). '
+           'modelled and proved: the three header stores (Hd), the text of every cookie line (Cw: set_cookie / unset_cookie / Morsel.OutputString / _quote / strftime / astimezone / _getdate, '
            'attributes exact, Secure default, rejections, echo through the request parser Ck, expiry of unset cookies) and the typed header properties + append_link (Rp: _header_property, _format_range, '
            '_format_content_disposition + secure_filename, _format_etag_header, _format_header_value_list, _is_ascii_encodable, encode_check_escaped for Location / Content-Location, the complete Link value; '
            'ASCII + decode-back theorems composed from the C10 str-level encoder proofs). Not native in Lean: NFKD normalisation inside secure_filename (a parameter of the model; only the fallback filename= token depends on it, '
@@ -179,7 +207,10 @@ LEVEL_TEXT = ('Machine-checked proofs (Lean 4) about a transcription of the thre
               'A third model (Rp) transcribes the typed header properties (_header_property and the response_helpers transforms, secure_filename) and the value append_link builds, on top of the C10 str-level URI encoders: '
               'location_ascii_and_decodes_back, link_target_reads_back, link_anchor_reads_back, rel_ext_members, title_star_decodes_back and filename_star_decodes_back prove for every str of scalar values that what is emitted is '
               'visible ASCII that percent-decodes to the original (or is the original when it already looked escaped); ascii_filename_quoted_string_reads_back proves the quoted-string repair for every str; '
-              'etag / list / Content-Range formatting and the set / None / del behaviour of the descriptors on the Hd store are proved as well. Rp is tied to the real classes by comparing the exact emitted value of every such property and of every Link header.')
+              'etag / list / Content-Range formatting and the set / None / del behaviour of the descriptors on the Hd store are proved as well. Rp is tied to the real classes by comparing the exact emitted value of every such property and of every Link header. '
+              'The objects that cross the API are part of the histories: what resp.headers returns is characterised for every history (headers_copy_after_history) and read by the model driver; returned mappings / lists are kept and edited by their '
+              'owner while the history goes on (snapshot oracle), setters receive every kind of iterable incl. one-shot ones (header_value_items_join: an iterable is the list of its items; TypeError for a non-str member), and raw relayed cookies of every '
+              'character class must come out as one identical line per append.')
 LEVEL_NOTE = ('Trusted: Lean kernel + standard axioms; correspondence harness and oracle; that CookieOut.lean transcribes http.cookies / strftime / gmtime faithfully (checked by the exact-line correspondence); '
               'str.lower = norm on ASCII names; NFKD normalisation is an input of the Rp model (CPython computes it), ASCII lower-casing for crossorigin, the CPython whitespace table for rel.split().')
 TECHNIQUE = ('Lean 4 refinement proof (three header stores -> case-insensitive map + emitted list) + Lean 4 render/parse round-trip proofs for cookie lines, URI-bearing header values and quoted filenames '
@@ -192,6 +223,7 @@ _HEX = '0123456789abcdefABCDEF'
 
 def run(ctx):
     _histories(ctx)
+    _app_objects(ctx)
     _cookies(ctx)
     _cookie_lines(ctx)
     _uris(ctx)
@@ -484,11 +516,280 @@ def set_cookie_value(value, kw):
     return value
 
 
+# ------------------------------------------------------------------ argument objects, returned objects, raw cookie texts
+
+ORA_SNAP = ('second-order reads: what a reader of the header stores returns (resp.headers, get_header, typed properties, _wsgi_headers() / _asgi_headers()) has the documented '
+            'type and is a snapshot - editing the returned object does not change the response, and a later response operation does not change an object returned earlier')
+ORA_ITER = ('argument objects: an iterable handed to a setter (cache_control, vary, set_headers, content_range, hreflang, link_extension) stores what a list of the same items '
+            'gives (or raises like it), whatever kind of iterable it is, and the argument is not kept: editing it afterwards leaves the header unchanged')
+ORA_RAW = ('raw cookies: every value appended with append_header(Set-Cookie spelling, raw) is handed to the server as exactly one separate Set-Cookie line, byte-identical to what was '
+           'appended, in append order, on WSGI and ASGI')
+
+
+class _OneShot:
+    """an iterator object: the first traversal uses it up"""
+    def __init__(self, items): self._it = iter(list(items))
+    def __iter__(self): return self
+    def __next__(self): return next(self._it)
+
+
+class _ReIter:
+    """re-iterable, without __len__ / __getitem__"""
+    def __init__(self, items): self.items_ = list(items)
+    def __iter__(self): return iter(list(self.items_))
+
+
+class _GetItemSeq:
+    """the old sequence protocol: __getitem__ + __len__, no __iter__"""
+    def __init__(self, items): self.items_ = list(items)
+    def __getitem__(self, i): return self.items_[i]
+    def __len__(self): return len(self.items_)
+
+
+class _ItemsOnly:
+    """'a dict-like object that implements an items() method' and nothing else; items() is a list or a one-shot generator"""
+    def __init__(self, pairs, lazy): self.pairs_ = list(pairs); self.lazy_ = lazy
+    def items(self): return (p for p in list(self.pairs_)) if self.lazy_ else list(self.pairs_)
+
+
+ITER_KINDS = ['list', 'tuple', 'set', 'frozenset', 'dict', 'dict_keys', 'dict_values', 'generator', 'map', 'filter', 'reversed', 'iter', 'zip_gen', 'chain', 'deque',
+              'oneshot_obj', 'reiter_obj', 'getitem_seq']
+ONE_SHOT_KINDS = {'generator', 'map', 'filter', 'reversed', 'iter', 'zip_gen', 'chain', 'oneshot_obj'}
+
+
+def wrap_iterable(rnd, items, kinds=None):
+    """Hand `items` over as some kind of iterable.  -> (obj, kind, what list(obj) yields, edit) where `edit()` changes the caller's
+    object afterwards (None for the immutable / one-shot kinds).  The expected members are computed here, before falcon sees obj."""
+    import collections
+    import itertools
+    items = list(items)
+    kind = rnd.choice(kinds or ITER_KINDS)
+    edit = None
+    junk = 'zz-edited-later'
+    if kind == 'list':
+        obj = list(items); eff = list(items)
+        def edit(o=obj):
+            rnd.choice([lambda: o.append(junk), o.clear, lambda: o.insert(0, junk), o.reverse, lambda: o.__setitem__(slice(0, 1), [junk])])()
+    elif kind == 'tuple':
+        obj = tuple(items); eff = list(items)
+    elif kind in ('set', 'frozenset'):
+        obj = (set if kind == 'set' else frozenset)(items); eff = list(obj)       # order does not matter: any order of the members is right, the traversal order is stable
+        if kind == 'set':
+            def edit(o=obj):
+                rnd.choice([lambda: o.add(junk), o.clear])()
+    elif kind in ('dict', 'dict_keys'):
+        d = dict.fromkeys(items, 1); obj = d if kind == 'dict' else d.keys(); eff = list(d)
+        def edit(o=d):
+            rnd.choice([lambda: o.__setitem__(junk, 1), o.clear])()
+    elif kind == 'dict_values':
+        d = {i: x for i, x in enumerate(items)}; obj = d.values(); eff = list(items)
+        def edit(o=d):
+            rnd.choice([lambda: o.__setitem__(-1, junk), o.clear])()
+    elif kind == 'generator':
+        obj = (x for x in list(items)); eff = list(items)
+    elif kind == 'map':
+        obj = map(lambda x: x, list(items)); eff = list(items)
+    elif kind == 'filter':
+        obj = filter(None, list(items)); eff = [x for x in items if x]           # filter(None, ...) drops the falsy members
+    elif kind == 'reversed':
+        obj = reversed(list(items)); eff = list(items)[::-1]
+    elif kind == 'iter':
+        obj = iter(list(items)); eff = list(items)
+    elif kind == 'zip_gen':
+        obj = (a for a, _ in zip(list(items), itertools.count())); eff = list(items)
+    elif kind == 'chain':
+        k = rnd.randint(0, len(items)); obj = itertools.chain(items[:k], iter(items[k:])); eff = list(items)
+    elif kind == 'deque':
+        obj = collections.deque(items); eff = list(items)
+        def edit(o=obj):
+            rnd.choice([lambda: o.append(junk), o.clear, lambda: o.appendleft(junk)])()
+    elif kind == 'oneshot_obj':
+        obj = _OneShot(items); eff = list(items)
+    elif kind == 'reiter_obj':
+        obj = _ReIter(items); eff = list(items)
+        def edit(o=obj):
+            rnd.choice([lambda: o.items_.append(junk), o.items_.clear])()
+    else:
+        obj = _GetItemSeq(items); eff = list(items)
+        def edit(o=obj):
+            rnd.choice([lambda: o.items_.append(junk), o.items_.clear])()
+    return obj, kind, eff, edit
+
+
+PAIR_KINDS = ['list', 'tuple', 'dict', 'ordered_dict', 'mappingproxy', 'items_view', 'generator', 'iter', 'map', 'zip', 'items_only', 'items_only_lazy', 'pair_lists', 'pair_iters',
+              'deque', 'reiter_obj']
+
+
+def wrap_pairs(rnd, pairs, kinds=None):
+    """Hand [(name, value)] to set_headers as some kind of argument object.  -> (obj, kind, the pairs in the order a list of them has, edit)"""
+    import collections
+    import types
+    pairs = [tuple(p) for p in pairs]
+    kind = rnd.choice(kinds or PAIR_KINDS)
+    edit = None
+    junk = ('X-Edited-Later', 'zz')
+    eff = list(pairs)
+    if kind == 'list':
+        obj = list(pairs)
+        def edit(o=obj):
+            rnd.choice([lambda: o.append(junk), o.clear, o.reverse])()
+    elif kind == 'tuple':
+        obj = tuple(pairs)
+    elif kind in ('dict', 'ordered_dict', 'mappingproxy', 'items_view'):
+        d = (collections.OrderedDict if kind == 'ordered_dict' else dict)(pairs); eff = list(d.items())
+        obj = d if kind in ('dict', 'ordered_dict') else (types.MappingProxyType(d) if kind == 'mappingproxy' else d.items())
+        def edit(o=d):
+            rnd.choice([lambda: o.__setitem__(*junk), o.clear, lambda: [o.__setitem__(k, 'zz') for k in list(o)]])()
+    elif kind == 'generator':
+        obj = (p for p in list(pairs))
+    elif kind == 'iter':
+        obj = iter(list(pairs))
+    elif kind == 'map':
+        obj = map(lambda p: p, list(pairs))
+    elif kind == 'zip':
+        obj = zip([a for a, _ in pairs], [b for _, b in pairs])
+    elif kind in ('items_only', 'items_only_lazy'):
+        obj = _ItemsOnly(pairs, kind == 'items_only_lazy')
+        def edit(o=obj):
+            rnd.choice([lambda: o.pairs_.append(junk), o.pairs_.clear])()
+    elif kind == 'pair_lists':
+        obj = [list(p) for p in pairs]
+        def edit(o=obj):
+            for p in o: p[1] = 'zz'
+    elif kind == 'pair_iters':
+        obj = [iter(list(p)) for p in pairs]
+    elif kind == 'deque':
+        obj = collections.deque(pairs)
+        def edit(o=obj):
+            rnd.choice([lambda: o.append(junk), o.clear])()
+    else:
+        obj = _ReIter(pairs)
+        def edit(o=obj):
+            rnd.choice([lambda: o.items_.append(junk), o.items_.clear])()
+    return obj, kind, eff, edit
+
+
+_RAW_NAMES = ['prefs', 'ab', 'sso', 'cart', 'csv', 'r', 'raw', 'k', 'SID', '__Host-id', '__Secure-t', 'a.b', 'x_y', 't0', 'tz', 'lang']
+_RAW_TOKEN_ALPHA = "abcxyzABC0189-_.~%!#$&'()*+/:<>?@[]^`{|}"
+_RAW_WHOLE = ['', '=', 'novalue', ',', ',a=b', 'a=b,', ' lead=1', 'trail=1 ', 'a=1, b=2', 'a=1,b=2', 'a=1;b=2', 'a=b=c', 'a="b;c=d"', 'a="x, y=z"; Path=/', 'x=1,y=2,z=3',
+              'q=a, Wed=1', 'd=Wed, 30 Sep 2026 00:00:00 GMT', 'e=1; Expires=Wed, 30 Sep 2026 00:00:00 GMT, f=2', 'j={"k":"v","n":1,"e=f":[1,2]}', 'b64=dGVzdA==,dGVzdA==']
+
+
+def rand_raw_cookie(rnd):
+    """A raw Set-Cookie value as an application relays it from upstream: `name=value; attr; attr=value` with every character class that is
+    legal (or seen in the wild) in a cookie value or attribute: commas followed by `name=`, JSON, quoted values holding `=` `;` `,`,
+    Expires dates in the RFC 1123, RFC 850 and asctime forms, base64 padding, folded cookies.  Printable ASCII only.  -> (text, class label)"""
+    if rnd.random() < 0.12:
+        return rnd.choice(_RAW_WHOLE), 'whole'
+
+    def token(lo=0, hi=6):
+        return ''.join(rnd.choice(_RAW_TOKEN_ALPHA) for _ in range(rnd.randint(lo, hi)))
+
+    def word(lo=1, hi=4):
+        return ''.join(rnd.choice('abcdefghijklmnopqrstuvwxyzABCXYZ0123456789_-') for _ in range(rnd.randint(lo, hi)))
+    name = rnd.choice(_RAW_NAMES) if rnd.random() < 0.8 else rnd.choice(['c1', 'c2', 'sid', 'gone'])
+    cls = rnd.choice(['token', 'kv_list', 'kv_list', 'json', 'quoted', 'csv', 'b64', 'date', 'folded', 'spaces', 'eqs'])
+    if cls == 'token': val = token()
+    elif cls == 'kv_list':      # k=v,k=v preference / AB-test cookies: a comma followed by `name=`
+        val = rnd.choice([',', ', ', ' ,', ',  ']).join(f'{word()}={token(0, 4)}' for _ in range(rnd.randint(2, 4)))
+    elif cls == 'json':
+        val = '{' + ','.join(f'"{word()}":{rnd.choice(["1", "true", "null", chr(34) + token(0, 3).replace(chr(34), "") + chr(34), "[1,2]", chr(34) + word() + "=" + word() + chr(34)])}'
+                             for _ in range(rnd.randint(1, 3))) + '}'
+    elif cls == 'quoted':
+        val = '"' + ''.join(rnd.choice([word(), ', ', ',', '=', ';', '; ', ' ', word() + '=' + word(), '\\"']) for _ in range(rnd.randint(1, 5))) + '"'
+    elif cls == 'csv': val = ','.join(str(rnd.randint(0, 99)) for _ in range(rnd.randint(2, 4)))
+    elif cls == 'b64': val = rnd.choice(['dGVzdA==', 'YQ==', 'YWI=', 'a+b/c=', '=='])
+    elif cls == 'date': val = rnd.choice(['Wed, 30 Sep 2026', 'Wed, 30-Sep-26 00:00:00 GMT', 'Sep 30, 2026', 'Wed,30'])
+    elif cls == 'folded': val = token(1, 3) + rnd.choice([', ', ',']) + word() + '=' + token(0, 3)          # two cookies folded into ONE appended value: still one append, one line
+    elif cls == 'spaces': val = rnd.choice([' ', 'a b', ' a', 'a ', 'a  b = c'])
+    else: val = rnd.choice(['=', 'a=b', '=a', 'a==b', 'a=b=c,d=e'])
+    attrs = []
+    for _ in range(rnd.choice([0, 1, 1, 2, 3, 4])):
+        a = rnd.choice(['Path=/', 'Path=/a,b=c', 'Path=/x y', 'Domain=example.com', 'Domain=.a.example,b=1', 'Expires=Wed, 30 Sep 2026 00:00:00 GMT', 'expires=Mon, 14-Jan-2019 21:20:08 GMT',
+                        'Expires=Wed Sep 30 00:00:00 2026', 'Expires=Thu, 01 Jan 1970 00:00:00 GMT', 'Max-Age=3600', 'Max-Age=0', 'Secure', 'HttpOnly', 'SameSite=Lax', 'SameSite=None',
+                        'Partitioned', 'Priority=High', 'ext=a,b=c', 'Comment="x, y=z"', 'Version=1', word() + '=' + token(0, 4), word()])
+        attrs.append(rand_case(rnd, a) if rnd.random() < 0.15 else a)
+    sep = rnd.choice(['; ', '; ', '; ', ';', ' ; '])
+    return sep.join([name + '=' + val] + attrs), cls
+
+
+def comma_name_eq(s):
+    """does the text hold a comma that is followed (after optional blanks) by something that looks like `name=`?"""
+    return re.search(r',\s*[^\s;,=]+=', s) is not None
+
+
+def apply_edit(rnd, obj, frozen, pool_names, pool_vals):
+    """Edit an object a reader returned (a dict for resp.headers, a list for the emitted header lists) the way its owner may - and apply the same
+    edit to `frozen`, the harness's own copy, so that `obj == frozen` keeps saying "obj behaves like an independent ordinary dict / list"."""
+    if isinstance(obj, dict):
+        keys = list(frozen)
+        how = rnd.choice(['setnew', 'setnew', 'overwrite', 'del', 'pop', 'popitem', 'clear', 'update', 'setdefault'])
+        n = rnd.choice(pool_names); v = rnd.choice(pool_vals)
+        if how == 'overwrite' and keys: n = rnd.choice(keys)
+        if how in ('setnew', 'overwrite'):
+            for o in (obj, frozen): o[n] = v
+        elif how == 'del' and keys:
+            k = rnd.choice(keys)
+            for o in (obj, frozen): del o[k]
+        elif how == 'pop':
+            k = rnd.choice(keys + [n])
+            for o in (obj, frozen): o.pop(k, None)
+        elif how == 'popitem' and keys:
+            k = keys[-1]; obj.popitem(); frozen.pop(k)
+        elif how == 'clear':
+            obj.clear(); frozen.clear()
+        elif how == 'update':
+            for o in (obj, frozen): o.update({n: v, n.lower(): v + '2'})
+        else:
+            for o in (obj, frozen): o.setdefault(n, v)
+        return how
+    how = rnd.choice(['append', 'append', 'pop', 'clear', 'setitem', 'reverse', 'extend', 'insert', 'delitem'])
+    enc = (lambda s: s.encode('latin-1')) if (frozen and isinstance(frozen[0][0], bytes)) else (lambda s: s)
+    item = (enc(rnd.choice(pool_names)), enc(rnd.choice(pool_vals)))
+    if how == 'append':
+        for o in (obj, frozen): o.append(item)
+    elif how == 'pop' and frozen:
+        for o in (obj, frozen): o.pop()
+    elif how == 'clear':
+        for o in (obj, frozen): o.clear()
+    elif how == 'setitem' and frozen:
+        i = rnd.randrange(len(frozen))
+        for o in (obj, frozen): o[i] = item
+    elif how == 'reverse':
+        for o in (obj, frozen): o.reverse()
+    elif how == 'extend':
+        for o in (obj, frozen): o.extend([item, item])
+    elif how == 'insert':
+        for o in (obj, frozen): o.insert(0, item)
+    elif how == 'delitem' and frozen:
+        i = rnd.randrange(len(frozen))
+        for o in (obj, frozen): del o[i]
+    return how
+
+
+def reader_type_problem(kind, obj):
+    """(a) the documented type of what a reader returns; None if fine"""
+    if kind == 'headers':
+        if type(obj) is not dict: return f'resp.headers returned a {type(obj).__name__}, documented: a dict copy'
+        bad = [(k, v) for k, v in obj.items() if type(k) is not str or type(v) is not str]
+        if bad: return f'resp.headers holds non-str items {bad!r}'
+        if any(k != k.lower() for k in obj): return f'resp.headers holds a name that is not lower-case: {[k for k in obj if k != k.lower()]!r}'
+        if 'set-cookie' in obj: return 'resp.headers holds Set-Cookie ("without cookies")'
+    else:
+        t = bytes if kind == 'asgi' else str
+        if not isinstance(obj, list): return f'_{kind}_headers() returned a {type(obj).__name__}, expected a list'
+        bad = [it for it in obj if not (isinstance(it, tuple) and len(it) == 2 and type(it[0]) is t and type(it[1]) is t)]
+        if bad: return f'_{kind}_headers() holds items that are not ({t.__name__}, {t.__name__}) tuples: {bad[:3]!r}'
+    return None
+
+
 # ------------------------------------------------------------------ 1. operation histories: correspondence + map oracle + emission oracle
 
-_PLAIN = ['X-A', 'X-B', 'X-Long-Header-Name', 'Content-Type', 'Content-Length', 'Cache-Control', 'ETag', 'Vary', 'Location', 'Content-Location',
+_PLAIN =['X-A', 'X-B', 'X-Long-Header-Name', 'Content-Type', 'Content-Length', 'Cache-Control', 'ETag', 'Vary', 'Location', 'Content-Location',
           'Retry-After', 'Accept-Ranges', 'Content-Range', 'Content-Disposition', 'Expires', 'Last-Modified', 'Link', 'Allow', 'Set-Cookie2', 'Cookie', 'Set', 'X-Set-Cookie']
 _COOKIE_SPELL = ['Set-Cookie', 'set-cookie', 'SET-COOKIE', 'sEt-cOoKiE']
+# names an owner of a returned mapping / list writes into it: present and absent ones, lower-case and not, Set-Cookie spellings
+_EDIT_NAMES = ['x-a', 'X-A', 'x-b', 'content-type', 'cache-control', 'Cache-Control', 'X-Logged-By', 'x-upload-token', 'Set-Cookie', 'set-cookie', 'vary', 'Link', 'location', 'etag']
 _VAL_ALPHA = [chr(c) for c in range(0x20, 0x7f)] + [chr(c) for c in range(0xa0, 0x100)]
 
 
@@ -518,7 +819,7 @@ def _histories(ctx):
         if r < 0.1:
             return ''
         if r < 0.3:
-            return rnd.choice(['1', 'a', 'a, b', 'text/plain', 'W/"x"', 'q=0.5; x', 'é', 'ÿ=¡'])
+            return rnd.choice(['1', 'a', 'a, b', 'text/plain', 'W/"x"', 'q=0.5; x', 'é', 'ÿ=¡', 'a=1,b=2', 'prefs=lang=en,tz=utc; Path=/', 'x=1, y=2'])
         return ''.join(rnd.choice(_VAL_ALPHA) for _ in range(rnd.randint(1, 6)))
 
     # typed properties: attr -> (header name, value generator, reference transform)
@@ -564,18 +865,22 @@ def _histories(ctx):
         raw = []            # raw Set-Cookie values appended
         jar = []            # [name, ('set'|'unset', kw)] in emission order
         hist = []
-        fail_map = fail_emit = fail_attr = fail_unset = fail_order = None
+        fail_map = fail_emit = fail_attr = fail_unset = fail_order = fail_snap = fail_iter = fail_raw = None
         mutated = False
+        snaps = []          # [reader kind, the object the reader returned, what it must (still) hold, how it was edited]
+        n_iter = 0          # setter calls whose argument was an iterable object
         sess.case({'asgi': asgi})
         sess.op('new', 'ok')
 
         def readback(low):
             """read the touched header back in three casings, on both sides"""
-            nonlocal fail_map
+            nonlocal fail_map, fail_snap
             for nm in (low, low.upper(), rand_case(rnd, low)):
                 try:
                     got = resp.get_header(nm)
                     sess.op(f'get {H(nm)}', 'none' if got is None else 'val ' + H(got))
+                    if got is not None and type(got) is not str:
+                        fail_snap = fail_snap or f'get_header({nm!r}) returned a {type(got).__name__} ({got!r}), documented: str'
                     if low == 'set-cookie':
                         fail_map = fail_map or f'get_header({nm!r}) returned {got!r} instead of raising'
                     elif got != model.get(low):
@@ -593,15 +898,27 @@ def _histories(ctx):
 
         for _ in range(rnd.randint(1, 12)):
             op = rnd.choice(['set', 'set', 'append', 'append', 'delete', 'get', 'set_headers', 'prop', 'prop', 'prop_none', 'prop_del',
-                             'link', 'cookie', 'unset', 'raw', 'emit'])
+                             'link', 'cookie', 'unset', 'raw', 'emit', 'snap', 'snap'])
+            if op == 'raw':      # a raw cookie append (the Set-Cookie spelling is drawn here; rand_name() yields one only rarely)
+                op = 'append'; force_cookie = True
+            else:
+                force_cookie = False
             ctx.count('hist_op_' + op)
             try:
                 if op in ('set', 'append', 'delete', 'get'):
                     n = rand_name(); low = n.lower(); v = rand_val()
+                    if force_cookie:
+                        n = rnd.choice(_COOKIE_SPELL) if rnd.random() < 0.6 else rand_case(rnd, 'set-cookie'); low = 'set-cookie'
                     is_cookie = low == 'set-cookie'
+                    if is_cookie and op != 'append' and rnd.random() < 0.5:
+                        v = rand_raw_cookie(rnd)[0]       # a raw cookie text through the plain-header calls: must raise whatever it looks like
                     if is_cookie and op == 'append':
                         v = rnd.choice(['r=1', 'raw=x; Path=/', 'r2=a b', 'k=v; Secure; HttpOnly'])
-                        if rnd.random() < 0.5:      # a raw line for a name the cookie API is also used with (e.g. copied from an upstream response)
+                        if rnd.random() < 0.6:      # every character class of a relayed upstream cookie (commas followed by name=, JSON, quoted, dates, folded ...)
+                            v, rcls = rand_raw_cookie(rnd)
+                            ctx.count('hist_raw_cookie_' + rcls)
+                            if comma_name_eq(v): ctx.count('hist_raw_cookie_with_comma_then_name_eq')
+                        elif rnd.random() < 0.5:      # a raw line for a name the cookie API is also used with (e.g. copied from an upstream response)
                             v = rnd.choice(['c1', 'c2', 'sid', 'gone']) + rnd.choice(['=rawv%d' % len(raw), '=rawv%d; Path=/' % len(raw), '="raw v%d"; HttpOnly' % len(raw),
                                                                                      '=rawv%d; Max-Age=3600' % len(raw)])
                             ctx.count('hist_raw_line_for_api_cookie_name')
@@ -641,12 +958,13 @@ def _histories(ctx):
                         readback(low)
                 elif op == 'set_headers':
                     items = [(rand_name() if rnd.random() < 0.25 else rand_case(rnd, rnd.choice(_PLAIN)), rand_val()) for _ in range(rnd.randint(0, 4))]
+                    items = [(a, rand_raw_cookie(rnd)[0]) if a.lower() == 'set-cookie' and rnd.random() < 0.5 else (a, b) for a, b in items]      # a raw cookie text in a bulk set: must raise
                     if rnd.random() < 0.7:
                         items = [(a, b) for a, b in items if a.lower() != 'set-cookie']
-                    as_dict = rnd.random() < 0.5
-                    arg = dict(items) if as_dict else (items if rnd.random() < 0.5 else tuple(items))
-                    seq = list(arg.items()) if as_dict else list(items)
-                    hist.append(['set_headers', 'dict' if as_dict else 'list', seq])
+                    # the argument object: any mapping with items() or any iterable of two-member iterables; the model sees the pairs a list of them holds
+                    arg, akind, seq, edit_arg = wrap_pairs(rnd, items)
+                    ctx.count('hist_set_headers_arg_' + akind); n_iter += 1
+                    hist.append(['set_headers', akind, seq])
                     line = 'setmany ' + (','.join(f'{H(a)}:{H(b)}' for a, b in seq) or '-')
                     # H() of an empty name/value is '-', which the driver maps back to ''
                     bad_at = next((i for i, (a, _) in enumerate(seq) if a.lower() == 'set-cookie'), None)
@@ -660,18 +978,37 @@ def _histories(ctx):
                         applied = seq[:bad_at] if bad_at is not None else []
                     for a, b in applied:
                         model[a.lower()] = b; mutated = True
+                    if edit_arg is not None and rnd.random() < 0.7:      # the caller goes on using (clears, extends, rewrites) its own object
+                        edit_arg(); hist[-1].append('argument edited afterwards'); ctx.count('hist_argument_edited_after_call')
                     for a, _ in seq[:3]:
                         if a.lower() != 'set-cookie':
                             readback(a.lower())
                 elif op == 'prop':
                     attr = rnd.choice(PROP_NAMES); hname, gen, ref = PROPS[attr]; v = gen()
-                    hist.append(['prop', attr, v])
-                    setattr(resp, attr, v)
+                    arg = v; edit_arg = None
+                    if attr in ('cache_control', 'vary'):
+                        # the members come in some kind of iterable (the model and the oracle see the list of the items it yields)
+                        if rnd.random() < 0.25: v = [rnd.choice(['no-cache', 'Accept', 'max-age=0', '', 'X-A', 'a, b']) for _ in range(rnd.randint(0, 4))]
+                        arg, akind, v, edit_arg = wrap_iterable(rnd, v)
+                        hist.append(['prop', attr, v, 'as ' + akind])
+                        ctx.count('hist_prop_iterable_' + akind); n_iter += 1
+                    elif attr == 'content_range' and rnd.random() < 0.4:
+                        arg = list(v); hist.append(['prop', attr, v, 'as list']); n_iter += 1
+                        def edit_arg(o=arg):
+                            o.clear()
+                    else:
+                        hist.append(['prop', attr, v])
+                    setattr(resp, attr, arg)
                     want = ref(v)
                     sess.op(f'pset {H(hname)} {H(want)}', 'ok')
                     model[hname] = want; mutated = True
+                    if edit_arg is not None and rnd.random() < 0.7:
+                        edit_arg(); hist[-1].append('argument edited afterwards'); ctx.count('hist_argument_edited_after_call')
                     got = getattr(resp, attr)
-                    if got != want: fail_map = fail_map or f'resp.{attr} = {v!r}; resp.{attr} reads {got!r}, expected {want!r}'
+                    if got != want:
+                        fail_map = fail_map or f'resp.{attr} = {v!r}; resp.{attr} reads {got!r}, expected {want!r}'
+                        if arg is not v: fail_iter = fail_iter or f'resp.{attr} = <{hist[-1][3]}> of {v!r}; resp.{attr} reads {got!r}, a list of the same items gives {want!r}'
+                    if got is not None and type(got) is not str: fail_snap = fail_snap or f'resp.{attr} reads a {type(got).__name__}'
                     readback(hname)
                 elif op == 'prop_none':
                     attr = rnd.choice(PROP_NAMES); hname = PROPS[attr][0]
@@ -699,7 +1036,12 @@ def _histories(ctx):
                     if rnd.random() < 0.3: kw['type_hint'] = 'text/html'
                     hist.append(['link', tgt, rel, kw])
                     before = model.get('link')
-                    resp.append_link(tgt, rel, **kw)
+                    ckw = dict(kw)
+                    if isinstance(kw.get('hreflang'), list):      # the language tags in some kind of (ordered) iterable
+                        ckw['hreflang'], akind, _, _ = wrap_iterable(rnd, kw['hreflang'], ['list', 'tuple', 'generator', 'map', 'iter', 'reversed', 'oneshot_obj', 'reiter_obj', 'dict_keys', 'deque'])
+                        if akind == 'reversed': ckw['hreflang'] = reversed(kw['hreflang'][::-1])
+                        hist[-1].append('hreflang as ' + akind); n_iter += 1
+                    resp.append_link(tgt, rel, **ckw)
                     got = resp.get_header('Link')
                     # map view: append_link is an append on the 'link' key with some rendered value
                     if got is None or (before is not None and not got.startswith(before + ', ')):
@@ -708,6 +1050,8 @@ def _histories(ctx):
                     else:
                         new = got if before is None else got[len(before) + 2:]
                     if '<' + ref_uri(tgt) + '>' not in new: fail_map = fail_map or f'append_link({tgt!r}): target not rendered as <{ref_uri(tgt)}> in {new!r}'
+                    if isinstance(kw.get('hreflang'), list) and '; ' + '; '.join('hreflang=' + l for l in kw['hreflang']) not in new:
+                        fail_iter = fail_iter or f'append_link(hreflang=<{hist[-1][-1]}> of {kw["hreflang"]!r}): the tags are not rendered one by one in {new!r}'
                     sess.op(f'append {H("Link")} {H(new)}', 'ok')
                     model['link'] = new if before is None else before + ', ' + new
                     mutated = True
@@ -755,15 +1099,45 @@ def _histories(ctx):
                         else:
                             jar.append([name, ('unset', kw)])
                         sess.op(f'uncookie {H(name)} {H(norm_cookie_line(line))}', 'ok'); mutated = True
+                elif op == 'snap':
+                    # a reader of the header stores hands an OBJECT to its caller: the resp.headers mapping, the emitted header lists.  The caller owns it:
+                    # it may keep it across later response operations and it may edit it (redact a value before logging, pop an entry, add bookkeeping).
+                    kind = rnd.choice(['headers', 'headers', 'headers', 'wsgi', 'asgi' if asgi else 'wsgi'])
+                    obj = resp.headers if kind == 'headers' else (falcon.Response._wsgi_headers(resp) if kind == 'wsgi' else resp._asgi_headers())
+                    fail_snap = fail_snap or reader_type_problem(kind, obj)
+                    if kind == 'headers':
+                        sess.op('headers', 'hdrs ' + ';'.join(f'{H(k)}={H(v)}' for k, v in obj.items()))
+                        if obj != model: fail_map = fail_map or f'resp.headers = {obj!r}, map holds {model!r}'
+                        again = resp.headers
+                        if again is obj: fail_snap = fail_snap or 'two reads of resp.headers returned the very same object (documented: a new copy each time)'
+                    else:
+                        dec = [(k.decode('latin-1'), v.decode('latin-1')) for k, v in obj] if kind == 'asgi' else list(obj)
+                        if (kind == 'asgi') == asgi:      # the driver's emit is the list of this response's own stack
+                            sess.op('emit', 'hdrs ' + ';'.join(f'{H(k)}={H(norm_cookie_line(v) if k == "set-cookie" and v not in raw else v)}' for k, v in dec))
+                    frozen = dict(obj) if kind == 'headers' else list(obj)
+                    edits = []
+                    if rnd.random() < 0.65:
+                        try:
+                            for _ in range(rnd.randint(1, 3)):
+                                edits.append(apply_edit(rnd, obj, frozen, _EDIT_NAMES, ['***', 'access-log', 'edited=1', '']))
+                        except Exception as e:  # noqa
+                            fail_snap = fail_snap or f'editing the {kind} object a reader returned raised {type(e).__name__}: {e}'
+                    hist.append(['snapshot', kind, 'kept' if not edits else 'edited: ' + ','.join(edits)])
+                    ctx.count('hist_snapshot_' + kind + ('_edited' if edits else '_kept'))
+                    snaps.append([kind, obj, frozen, edits])
                 else:  # emit mid-history (no default media type: must not change anything)
                     hist.append(['emit'])
                     if asgi:
                         out = [(k.decode('latin-1'), v.decode('latin-1')) for k, v in resp._asgi_headers()]
                     else:
                         out = list(resp._wsgi_headers())
-                    sess.op('emit', 'hdrs ' + ';'.join(f'{H(k)}={H(norm_cookie_line(v) if k == "set-cookie" else v)}' for k, v in out))
+                    sess.op('emit', 'hdrs ' + ';'.join(f'{H(k)}={H(norm_cookie_line(v) if k == "set-cookie" and v not in raw else v)}' for k, v in out))
             except Exception as e:  # noqa
                 fail_map = fail_map or f'{hist[-1] if hist else op} raised {type(e).__name__}: {e}'
+            for si, (kind, obj, frozen, edits) in enumerate(snaps):
+                if obj != frozen and not fail_snap:
+                    fail_snap = (f'the {kind} object returned by read #{si + 1} ({"edited by its owner: " + ",".join(edits) if edits else "not touched by its owner"}) changed when the response was modified '
+                                 f'later ({hist[-1]!r}): it now holds {obj!r}, its owner left it as {frozen!r}')
             if fail_map:
                 break
 
@@ -775,6 +1149,7 @@ def _histories(ctx):
             if hv != model:
                 fail_map = f'resp.headers = {hv!r}, map holds {model!r}'
         outs = {}
+        fail_plain = None
         try:
             outs['wsgi'] = list(falcon.Response._wsgi_headers(resp))
             if asgi:
@@ -788,14 +1163,15 @@ def _histories(ctx):
             fail_emit = fail_emit or f'emission raised {type(e).__name__}: {e}'
         main_out = outs.get('asgi' if asgi else 'wsgi')
         if main_out is not None:
-            sess.op('emit', 'hdrs ' + ';'.join(f'{H(k)}={H(norm_cookie_line(v) if k == "set-cookie" else v)}' for k, v in main_out))
+            sess.op('emit', 'hdrs ' + ';'.join(f'{H(k)}={H(norm_cookie_line(v) if k == "set-cookie" and v not in raw else v)}' for k, v in main_out))
         for stack, out in outs.items():
             plain = [(k, v) for k, v in out if k.lower() != 'set-cookie']
             names = [k.lower() for k, _ in plain]
             if len(set(names)) != len(names):
-                fail_emit = fail_emit or f'{stack}: a plain header is emitted more than once: {names}'
+                fail_plain = fail_plain or f'{stack}: a plain header is emitted more than once: {names}'
             elif dict((k.lower(), v) for k, v in plain) != model:
-                fail_emit = fail_emit or f'{stack}: emitted plain headers {plain!r} != map {model!r}'
+                fail_plain = fail_plain or f'{stack}: emitted plain headers {plain!r} != map {model!r}'
+            fail_emit = fail_emit or fail_plain
             sc = [v for k, v in out if k.lower() == 'set-cookie']
             fail_order = fail_order or cookie_order_verdict(calls, sc, stack)
             ok_jar = [e for e in jar if e[1][0] != 'failed']
@@ -829,6 +1205,38 @@ def _histories(ctx):
         case = {'stack': 'asgi' if asgi else 'wsgi', 'secure_cookies_by_default': default_secure, 'history': hist}
         ctx.oracle(ORA_MAP, fail_map is None, fail_map, case)
         ctx.oracle(ORA_EMIT, fail_emit is None, fail_emit, case)
+        if snaps:
+            # the model never saw what the owners of the returned objects did to them: everything read and emitted above was compared with it; here the objects themselves
+            for si, (kind, obj, frozen, edits) in enumerate(snaps):
+                if obj != frozen and not fail_snap:
+                    fail_snap = f'the {kind} object returned by read #{si + 1} holds {obj!r} at the end of the history, its owner left it as {frozen!r}'
+            if any(e for _, _, _, e in snaps) and not fail_snap and (fail_map or fail_plain):
+                fail_snap = 'after the owner of a returned object edited it (' + '; '.join(f'{k}: {",".join(e)}' for k, _, _, e in snaps if e) + f'), the response differs from the history of its own operations: {fail_map or fail_plain}'
+            ctx.oracle(ORA_SNAP, fail_snap is None, fail_snap, case)
+        elif fail_snap:
+            ctx.oracle(ORA_SNAP, False, fail_snap, case)
+        if n_iter:
+            if not fail_iter and fail_map and any('argument edited afterwards' in h for h in hist):
+                fail_iter = f'after the caller edited the argument object of an earlier setter call the response differs from the history of its operations: {fail_map}'
+            ctx.oracle(ORA_ITER, fail_iter is None, fail_iter, case)
+        if raw:
+            for stack, out in outs.items():
+                sc_all = [v for k, v in out if k.lower() == 'set-cookie']
+                if sc_all[:len(raw)] != raw and not fail_raw:
+                    # falcon documents (and Hd.one_line_per_cookie_and_per_raw_append proves of the model) that the raw lines precede the cookie-API lines;
+                    # the statement itself only asks for one separate unchanged line per append: judge the multiset and the relative order
+                    rest = list(sc_all); pos = []
+                    for r in raw:
+                        if r in rest:
+                            i = rest.index(r); pos.append(i); rest[i] = None
+                        else:
+                            fail_raw = (f'{stack}: the raw cookie {r!r} was appended once but no Set-Cookie line handed to the server is identical to it; '
+                                        f'{len(sc_all)} Set-Cookie lines for {len(raw)} raw appends + {len(jar)} API cookies: {sc_all!r}')
+                            break
+                    else:
+                        if pos != sorted(pos): fail_raw = f'{stack}: raw cookie lines are not emitted in append order: appended {raw!r}, emitted {sc_all!r}'
+            if not fail_raw and fail_emit and 'Set-Cookie lines for' in fail_emit: fail_raw = fail_emit
+            ctx.oracle(ORA_RAW, fail_raw is None, fail_raw, case)
         if calls:
             ctx.oracle(ORA_ORDER, fail_order is None, fail_order, case)
             names_raw = {n for k, n, _ in calls if k == 'raw'}; names_api = {n for k, n, _ in calls if k != 'raw'}
@@ -840,6 +1248,148 @@ def _histories(ctx):
         ctx.seen(('h', asgi, repr(hist)), mutated)
         ctx.count('hist_asgi' if asgi else 'hist_wsgi')
     sess.finish()
+
+
+# ------------------------------------------------------------------ 1b. returned objects, argument objects and raw cookies through full apps
+
+ORA_APP = ('full app: the header list handed to start_response / ASGI send holds each plain header of the responder\'s history exactly once with the value a case-insensitive map '
+           'holds (ASGI: lower-case bytes names), one Set-Cookie line per raw append and per cookie - whatever middleware does with the objects the readers handed to it')
+
+
+def _app_objects(ctx):
+    """One script of header operations is played by a responder of a WSGI app and of an ASGI app.  A middleware (process_response) and the responder itself read
+    resp.headers, keep what they get and edit it as an access log / a debugging hook would; setters are given one-shot iterables; raw upstream cookies are relayed.
+    What the server receives is compared with the map of the responder's own operations."""
+    import falcon
+    import falcon.asgi
+    from lib_httpdrive import wsgi_call, AsgiDriver
+    rnd = ctx.rng
+    script = {}
+
+    def play(resp):
+        st = script['state'] = {'snaps': [], 'problems': []}
+        for op in script['ops']:
+            k = op[0]
+            if k == 'set': resp.set_header(op[1], op[2])
+            elif k == 'append': resp.append_header(op[1], op[2])
+            elif k == 'delete': resp.delete_header(op[1])
+            elif k == 'raw': resp.append_header(op[1], op[2])
+            elif k == 'cookie': resp.set_cookie(op[1], op[2])
+            elif k == 'prop':
+                arg, _, eff, edit = wrap_iterable(rnd, op[3], [op[2]])
+                if eff != op[4]: st['problems'].append(f'harness: {op[2]} of {op[3]!r} yields {eff!r}')
+                setattr(resp, op[1], arg)
+                if edit is not None and op[5]: edit()
+            elif k == 'set_headers':
+                arg, _, eff, edit = wrap_pairs(rnd, op[2], [op[1]])
+                resp.set_headers(arg)
+                if edit is not None and op[3]: edit()
+            elif k == 'read':
+                look(resp, st, op[1], 'responder')
+
+    def look(resp, st, n_edits, who):
+        h = resp.headers
+        w = reader_type_problem('headers', h)
+        if w: st['problems'].append(w)
+        frozen = dict(h); edits = []
+        for _ in range(n_edits):
+            edits.append(apply_edit(rnd, h, frozen, _EDIT_NAMES, ['***', 'access-log', '']))
+        st['snaps'].append([who, h, frozen, edits])
+
+    class Mw:
+        def process_response(self, req, resp, resource, req_succeeded):
+            for n in script['mw']: look(resp, script['state'], n, 'middleware')
+
+        async def process_response_async(self, req, resp, resource, req_succeeded):
+            for n in script['mw']: look(resp, script['state'], n, 'middleware')
+
+    class Res:
+        def on_get(self, req, resp):
+            play(resp); resp.text = 'ok'
+
+    class ResA:
+        async def on_get(self, req, resp):
+            play(resp); resp.text = 'ok'
+
+    wapp = falcon.App(middleware=[Mw()]); wapp.add_route('/o', Res())
+    aapp = falcon.asgi.App(middleware=[Mw()]); aapp.add_route('/o', ResA())
+    drv = AsgiDriver()
+    NAMES = ['X-A', 'X-B', 'X-Upload-Token', 'Cache-Control', 'Vary', 'ETag', 'Allow', 'X-Logged-By']
+    try:
+        for ci in range(ctx.n(2500, 40000)):
+            ops = []; model = {}; raws = []; cookies = {}
+            has_iter = False
+            for _ in range(rnd.randint(1, 7)):
+                k = rnd.choice(['set', 'set', 'append', 'delete', 'raw', 'raw', 'cookie', 'prop', 'prop', 'set_headers', 'read', 'read'])
+                if k in ('set', 'append', 'delete'):
+                    n = rand_case(rnd, rnd.choice(NAMES)); v = rnd.choice(['1', 'tok-12345', 'a, b', 'no-store', 'x=1,y=2', ''])
+                    ops.append([k, n, v])
+                    if k == 'set': model[n.lower()] = v
+                    elif k == 'append': model[n.lower()] = model[n.lower()] + ', ' + v if n.lower() in model else v
+                    else: model.pop(n.lower(), None)
+                elif k == 'raw':
+                    rawv, rcls = rand_raw_cookie(rnd)
+                    ops.append(['raw', rand_case(rnd, 'set-cookie'), rawv]); raws.append(rawv); ctx.count('app_raw_' + rcls)
+                elif k == 'cookie':
+                    n = rnd.choice(['theme', 'uid']); v = rnd.choice(['dark', '42', 'a b'])
+                    ops.append(['cookie', n, v]); cookies.pop(n, None); cookies[n] = v
+                elif k == 'prop':
+                    attr = rnd.choice(['vary', 'cache_control'])
+                    members = [rnd.choice(['Accept', 'Accept-Encoding', 'X-Tenant', 'private', 'max-age=60', 'must-revalidate', '*', '']) for _ in range(rnd.randint(0, 4))]
+                    kind = rnd.choice(ITER_KINDS)
+                    eff = wrap_iterable(rnd, members, [kind])[2]
+                    if kind in ('set', 'frozenset'): members = eff = eff[:1]        # one member: the traversal order of a str set differs between processes, not within one
+                    ops.append(['prop', attr, kind, members, eff, rnd.random() < 0.7])
+                    model[attr.replace('_', '-')] = ', '.join(eff); has_iter = True; ctx.count('app_prop_iterable_' + kind)
+                elif k == 'set_headers':
+                    pairs = [(rand_case(rnd, rnd.choice(NAMES)), rnd.choice(['1', 'v', 'a, b'])) for _ in range(rnd.randint(0, 3))]
+                    kind = rnd.choice(PAIR_KINDS)
+                    eff = wrap_pairs(rnd, pairs, [kind])[2]
+                    ops.append(['set_headers', kind, pairs, rnd.random() < 0.7])
+                    for a, b in eff: model[a.lower()] = b
+                    has_iter = True; ctx.count('app_set_headers_arg_' + kind)
+                else:
+                    ops.append(['read', rnd.choice([0, 0, 1, 2])])
+            script['ops'] = ops
+            script['mw'] = [rnd.choice([0, 1, 2, 3]) for _ in range(rnd.choice([0, 1, 1, 2]))]
+            reads = [o for o in ops if o[0] == 'read'] or script['mw']
+            case = {'ops': ops, 'middleware_reads_resp_headers_then_edits_its_copy': script['mw']}
+            lines = {}
+            for stack in ('wsgi', 'asgi'):
+                fail = fail_snap = fail_raw = None
+                try:
+                    if stack == 'wsgi': status, hdrs, _ = wsgi_call(wapp, 'GET', b'/o')
+                    else: status, hdrs, _, _ = drv.call(aapp, 'GET', b'/o')
+                except Exception as e:  # noqa
+                    ctx.oracle(ORA_APP, False, f'{stack}: the request raised {type(e).__name__}: {e}', case); continue
+                st = script['state']
+                if status != 200: fail = f'{stack}: status {status}'
+                plain = [(k, v) for k, v in hdrs if k.lower() not in ('set-cookie', 'content-type', 'content-length')]
+                names = [k.lower() for k, _ in plain]
+                if stack == 'asgi' and any(k != k.lower() for k, _ in hdrs):
+                    fail = fail or f'asgi: header names handed to the server are not all lower-case: {[k for k, _ in hdrs if k != k.lower()]}'
+                if len(set(names)) != len(names): fail = fail or f'{stack}: a plain header is handed to the server more than once: {names}'
+                elif dict((k.lower(), v) for k, v in plain) != model: fail = fail or f'{stack}: plain headers handed to the server {plain!r} != map of the responder\'s operations {model!r}'
+                sc = [v for k, v in hdrs if k.lower() == 'set-cookie']
+                if sc[:len(raws)] != raws:
+                    fail_raw = f'{stack}: raw cookies appended {raws!r}; Set-Cookie lines handed to the server {sc!r}: not one identical line per append, in order'
+                elif len(sc) != len(raws) + len(cookies):
+                    fail_raw = f'{stack}: {len(sc)} Set-Cookie lines for {len(raws)} raw appends + {len(cookies)} cookies: {sc!r}'
+                for who, h, frozen, edits in st['snaps']:
+                    if h != frozen:
+                        fail_snap = fail_snap or f'{stack}: the mapping the {who} got from resp.headers (own edits: {edits}) changed when the response was modified later: {h!r}, its owner left it as {frozen!r}'
+                if st['problems']: fail_snap = fail_snap or f'{stack}: ' + '; '.join(st['problems'])
+                edited = any(e for _, _, _, e in st['snaps'])
+                if fail and edited: fail_snap = fail_snap or f'after the owners of mappings read from resp.headers edited their copies ({[e for _, _, _, e in st["snaps"] if e]}): ' + fail
+                ctx.oracle(ORA_APP, fail is None and fail_raw is None, fail or fail_raw, dict(case, stack=stack))
+                if reads: ctx.oracle(ORA_SNAP, fail_snap is None, fail_snap, dict(case, stack=stack))
+                if has_iter: ctx.oracle(ORA_ITER, fail is None, fail, dict(case, stack=stack))
+                if raws: ctx.oracle(ORA_RAW, fail_raw is None, fail_raw, dict(case, stack=stack))
+                lines[stack] = sc
+                ctx.count('app_objects_' + stack)
+            ctx.seen(('ao', repr(ops), repr(script['mw'])), bool(model or raws or cookies))
+    finally:
+        drv.close()
 
 
 # ------------------------------------------------------------------ 2. cookies through full apps, echoed back through the request API
@@ -928,6 +1478,10 @@ def _cookies(ctx):
                     if rnd.random() < 0.3: kw['path'] = rnd.choice(['/', '/a'])
                     ops.append(['unset', rnd.choice(NAMES[:7]), kw])
                 elif rnd.random() < 0.5:
+                    rawv, rcls = rand_raw_cookie(rnd)
+                    ops.append(['raw', rand_case(rnd, 'set-cookie'), rawv]); ctx.count('cookie_raw_' + rcls)
+                    if comma_name_eq(rawv): ctx.count('cookie_raw_with_comma_then_name_eq')
+                elif rnd.random() < 0.3:
                     ops.append(['raw', rand_case(rnd, 'set-cookie'), rnd.choice(['r=1', 'raw=x; Path=/', 'r2="a b"'])])
                 else:       # a raw line for a name the cookie API is also used with (a proxied upstream cookie that is then replaced / unset)
                     ops.append(['raw', rand_case(rnd, 'set-cookie'), rnd.choice(NAMES[:7]) + rnd.choice(['=rawv%d', '=rawv%d; Path=/', '="raw v%d"; HttpOnly', '=rawv%d; Max-Age=60']) % len(ops)])
@@ -987,6 +1541,19 @@ def _cookies(ctx):
                     w = check_unset_line(mine[0], name, op[2])
                     if w: fail_unset = fail_unset or w + f' [{mine[0]}]'
             ctx.oracle(ORA_LINES, fail_lines is None, fail_lines, case)
+            if raws:
+                fail_raw = None; rest2 = list(sc); pos = []
+                for r in raws:
+                    if r in rest2:
+                        i = rest2.index(r); pos.append(i); rest2[i] = None
+                    else:
+                        fail_raw = (f'{stack}: the raw cookie {r!r} was appended once but no Set-Cookie line handed to the server is identical to it; {len(sc)} Set-Cookie lines for '
+                                    f'{len(raws)} raw appends + {len(last)} API cookies: {sc!r}')
+                        break
+                else:
+                    if pos != sorted(pos): fail_raw = f'{stack}: raw cookie lines are not emitted in append order: appended {raws!r}, emitted {sc!r}'
+                    elif len(sc) > len(raws) + len(last) + len(failed_names): fail_raw = f'{stack}: {len(sc)} Set-Cookie lines for {len(raws)} raw appends + {len(last)} API cookies: {sc!r}'
+                ctx.oracle(ORA_RAW, fail_raw is None, fail_raw, case)
             calls = []
             for op, err in zip(ops, errs):
                 if op[0] == 'raw':
@@ -1387,11 +1954,28 @@ def _uris(ctx):
             case = {'helper': 'append_link', 'calls': calls, 'stack': stack}
             sess.case(case); sess.op('new', 'ok')
             done = []
+            link_kinds = []
+
+            def call_kw(kw):
+                """the keyword arguments with the iterable ones (hreflang list, link_extension) handed over as some kind of iterable object; the model line and the
+                oracle keep the plain lists.  Built afresh for every call: most kinds are used up by one traversal."""
+                ckw = dict(kw)
+                if isinstance(kw.get('hreflang'), (list, tuple)) and rnd.random() < 0.7:
+                    o, k, eff, _ = wrap_iterable(rnd, kw['hreflang'], ['list', 'tuple', 'generator', 'map', 'iter', 'zip_gen', 'chain', 'oneshot_obj', 'reiter_obj', 'getitem_seq', 'deque', 'dict_values'])
+                    ckw['hreflang'] = o; link_kinds.append('hreflang as ' + k); ctx.count('uri_link_hreflang_as_' + k)
+                if kw.get('link_extension') is not None and rnd.random() < 0.7:
+                    o, k, eff, _ = wrap_pairs(rnd, kw['link_extension'], ['list', 'tuple', 'generator', 'iter', 'map', 'zip', 'pair_lists', 'pair_iters', 'items_view', 'deque', 'reiter_obj'])
+                    if k != 'items_view' or eff == [tuple(p) for p in kw['link_extension']]:
+                        ckw['link_extension'] = o; link_kinds.append('link_extension as ' + k); ctx.count('uri_link_extension_as_' + k)
+                if kw.get('title_star') is not None and rnd.random() < 0.3:
+                    ckw['title_star'] = list(kw['title_star'])
+                return ckw
+            case['argument_objects'] = link_kinds
             try:
                 for tgt, rel, kw in calls:
                     line = rp_link_args(tgt, rel, kw)
                     try:
-                        resp.append_link(tgt, rel, **kw)
+                        resp.append_link(tgt, rel, **call_kw(kw))
                         done.append((tgt, rel, kw))
                         sess.op('alink ' + line, 'ok')
                     except ValueError as e:
@@ -1403,7 +1987,7 @@ def _uris(ctx):
                     if rnd.random() < 0.3:   # the same call, stateless: the text built in `value`
                         one = (falcon.asgi.Response if asgi else falcon.Response)()
                         try:
-                            one.append_link(tgt, rel, **kw)
+                            one.append_link(tgt, rel, **call_kw(kw))
                             sess.op('linkv ' + line, shown(one.get_header('link')))
                         except ValueError:
                             sess.op('linkv ' + line, 'err ValueError')
@@ -1450,6 +2034,10 @@ def _uris(ctx):
                                 fail = check_uri(rel, mm.group(1), 'rel')
                         if not fail and 'title' in kw and f'; title="{kw["title"]}"' not in params:
                             fail = f'title {kw["title"]!r} not rendered in {l!r}'
+                        if not fail and isinstance(kw.get('hreflang'), (list, tuple)) and kw['hreflang'] and '; ' + '; '.join('hreflang=' + x for x in kw['hreflang']) not in params:
+                            fail = f'hreflang tags {kw["hreflang"]!r} (argument objects: {link_kinds}) are not rendered one by one in {l!r}'
+                        if not fail and kw.get('link_extension') and '; ' + '; '.join(f'{a}={b}' for a, b in kw['link_extension']) not in params:
+                            fail = f'link_extension {kw["link_extension"]!r} (argument objects: {link_kinds}) is not rendered pair by pair in {l!r}'
             except Exception as e:  # noqa
                 fail = f'append_link raised {type(e).__name__}: {e}'
             ctx.oracle(ORA, fail is None, fail, case)
@@ -1497,7 +2085,7 @@ def _uris(ctx):
                 sess.op(f'secure {cp(nfkd(t))} {cp(t)}', 'err ValueError')
         else:
             # the remaining transforms: etag quoting, list joins, content_range, str(value); exact emitted value only (no URI claim)
-            which = rnd.choice(['etag', 'cache_control', 'vary', 'content_range', 'content_length', 'content_type', 'retry_after', 'accept_ranges', 'ascii'])
+            which = rnd.choice(['etag', 'cache_control', 'vary', 'cache_control', 'vary', 'cache_control', 'vary', 'content_range', 'content_length', 'content_type', 'retry_after', 'accept_ranges', 'ascii'])
             ctx.count('prop_' + which)
             val_alpha = ['a', 'b', 'W', '/', '"', '"', '\\', ' ', ',', '=', '0', 'é', 'ÿ', '-']
 
@@ -1514,10 +2102,48 @@ def _uris(ctx):
                 enc = 't' + cp(v)
             elif which in ('cache_control', 'vary'):
                 r = rnd.random()
-                if r < 0.15: v = word()                       # a str is an iterable of its characters
-                elif r < 0.3: v = tuple(word() for _ in range(rnd.randint(0, 3)))
+                if r < 0.12: v = word()                       # a str is an iterable of its characters
+                elif r < 0.22: v = tuple(word() for _ in range(rnd.randint(0, 3)))
                 else: v = [rnd.choice(['no-store', 'public', 'max-age=60', 'Accept', '*', 'Accept-Encoding', '', word()]) for _ in range(rnd.randint(0, 4))]
                 enc = 'l' + rp_list(list(v))
+                if not isinstance(v, str):
+                    # the ARGUMENT OBJECT: the same members in every kind of iterable (one-shot ones included), sometimes with members that are not str
+                    members = list(v)
+                    if rnd.random() < 0.15 and members:
+                        members[rnd.randrange(len(members))] = rnd.choice([5, 0, -1, 5, None, b'x', 2.5])
+                        ctx.count('prop_iterable_with_non_str_member')
+                    arg, akind, members, edit_arg = wrap_iterable(rnd, members)
+                    ctx.count('prop_iterable_' + akind)
+                    all_str = all(isinstance(x, str) for x in members)
+                    modelled = all(isinstance(x, str) or type(x) is int for x in members)
+                    enc = ('l' + rp_list(members)) if all_str and rnd.random() < 0.5 else ('r' + ('_' if not members else ','.join(rp_item(x) for x in members)) if modelled else None)
+                    hname = 'cache-control' if which == 'cache_control' else 'vary'
+                    case = {'property': which, 'members': members, 'argument_object': akind, 'stack': stack}
+                    sess.case(case); sess.op('new', 'ok')
+                    before = None
+                    if rnd.random() < 0.3:      # an earlier value: a setter call that raises must leave it alone
+                        before = rnd.choice(['Old', 'no-cache']); setattr(resp, which, [before]); sess.op(f'assign {which} l{cp(before)} -', 'ok')
+                    fail = None
+                    try:
+                        setattr(resp, which, arg)
+                        if enc: sess.op(f'assign {which} {enc} -', 'ok')
+                        want = ', '.join(members) if all_str else None
+                        if not all_str: fail = f'resp.{which} = <{akind}> of {members!r} did not raise although a member is not a str (a list raises TypeError)'
+                    except TypeError:
+                        if enc: sess.op(f'assign {which} {enc} -', 'err')
+                        want = before
+                        if all_str: fail = f'resp.{which} = <{akind}> of {members!r} raised TypeError; a list of the same members is accepted'
+                    if edit_arg is not None and rnd.random() < 0.7:
+                        edit_arg(); case['argument_edited_afterwards'] = True; ctx.count('prop_argument_edited_after_call')
+                    em = emitted_value(resp, asgi, hname)
+                    sess.op(f'get {which}', shown(em))
+                    got = (getattr(resp, which), resp.get_header(hname.upper()), em)
+                    if not fail and got != (want, want, want):
+                        fail = (f'resp.{which} = <{akind}> of {members!r}{" (edited by the caller afterwards)" if case.get("argument_edited_afterwards") else ""}: property / get_header / emitted list read '
+                                f'{got!r}; a list of the same members gives {want!r}')
+                    ctx.oracle(ORA_ITER, fail is None, fail, case)
+                    ctx.seen(('p', which, akind, repr(members)), True)
+                    continue
             elif which == 'content_range':
                 def num():
                     return rnd.choice([0, 1, 5, 10, 99, 100, 12345, 2 ** 64, -1, -20, rnd.randint(0, 10 ** 6)])
@@ -1525,6 +2151,7 @@ def _uris(ctx):
                 if rnd.random() < 0.1: v = v[:rnd.randint(0, 2)]
                 elif rnd.random() < 0.05: v = v[:3] + ('u', 'extra')
                 enc = 'r' + ('_' if not v else ','.join(rp_item(x) for x in v))
+                if rnd.random() < 0.3: v = list(v); ctx.count('prop_content_range_as_list')      # a list instead of the documented tuple: same members, same value
             else:
                 v = rnd.choice([0, 7, 120, 10 ** 12, -3, '5', 'bytes', 'none', 'text/plain; charset=utf-8', '', word()])
                 enc = rp_item(v)
